@@ -419,6 +419,22 @@ func runCase(c *core.Ctx, tc *tcase, idx int) {
 
 func account(c *core.Ctx, tc *tcase, want []step, replay map[string]interface{}) {
 	nPass, nDrop, nWM := 0, 0, 0
+	// boundary coverage: a record exactly at the current watermark (must drop) / 1ns above it (must pass)
+	{
+		have := false
+		var wm int64
+		for i, s := range want {
+			if have && tc.times[i] == wm {
+				c.Count("boundary/record_time_equals_watermark(dropped)", 1)
+			}
+			if have && tc.times[i] == wm+1 {
+				c.Count("boundary/record_time_1ns_above_watermark(passed)", 1)
+			}
+			if s.watermark {
+				have, wm = true, s.wm
+			}
+		}
+	}
 	for _, s := range want {
 		if s.pass {
 			nPass++
